@@ -1,7 +1,7 @@
 (** C12 — missing_bindings lists exactly the unbound keys, prerequisites first.
     Statements only; proofs live in Proofs/SchemeProofs.v. *)
 From PM Require Import Model.Prelude Model.Scheme Model.DomTable Spec.TopoSpec
-  Proofs.SchemeProofs.
+  Proofs.SchemeProofs Proofs.SchemeTotal.
 
 Theorem c12_missing_ok :
   forall (K : Type) (keqb : K -> K -> bool) (req : K -> list K),
@@ -32,6 +32,24 @@ Theorem c12_all_missing_ok :
       /\ prereq_first req (fun x => In x known) l
       /\ (forall x, In x l -> ~ In x known).
 Proof. exact @all_missing_ok. Qed.
+
+(** "return": on every acyclic scheme both functions terminate (the model's fuel
+    is sufficient beyond an explicit bound — the weight of the requested keys). *)
+Theorem c12_missing_terminates :
+  forall (K : Type) (keqb : K -> K -> bool) (req : K -> list K),
+    acyclic req ->
+    forall (key : K) (known : list K),
+      exists fuel0, forall fuel, fuel0 <= fuel ->
+        exists l, missing_bindings keqb req fuel key known = Ok l.
+Proof. exact @missing_terminates. Qed.
+
+Theorem c12_all_missing_terminates :
+  forall (K : Type) (keqb : K -> K -> bool) (req : K -> list K),
+    acyclic req ->
+    forall (keys known : list K),
+      exists fuel0, forall fuel, fuel0 <= fuel ->
+        exists l, all_missing_bindings keqb req fuel keys known = Ok l.
+Proof. exact @all_missing_terminates. Qed.
 
 (** D1: the algorithm of the pinned commit (keys marked visited when pushed)
     violates the prerequisite-first clause on a shared prerequisite. *)
@@ -69,4 +87,6 @@ Proof. vm_compute. reflexivity. Qed.
 Print Assumptions c12_missing_ok.
 Print Assumptions c12_missing_known_nil.
 Print Assumptions c12_all_missing_ok.
+Print Assumptions c12_missing_terminates.
+Print Assumptions c12_all_missing_terminates.
 Print Assumptions c12_pinned_refuted.
